@@ -177,7 +177,10 @@ def run_property(prop, tier="quick", repo_root="/repo", seed=0, only=None, verbo
         replay = dict(
             property=prop, obligation=name, function=ob.func, kind=ob.kind, line=ob.line, path=ob.path, path_labels=ob.extra.get("labels"),
             violated_clause=ob.extra.get("clause"), solver=x["solver"], solver_output="sat", model_args=args, pre_state=obs, atoms=atoms,
-            model=model.get("__full__", "")[:6000], source_sha256=[r.info.get("sha256") for c, r in fun_results if r is not None and c.qual == ob.func],
+            model=model.get("__full__", "")[:6000],
+            # logger.isEnabledFor(..) answers chosen by the model (A5: the logging configuration is an input of the function)
+            env=dict(logging_enabled=[v == "True" for k, v in sorted(model.items()) if k.startswith("isEnabledFor")]),
+            source_sha256=[r.info.get("sha256") for c, r in fun_results if r is not None and c.qual == ob.func],
         )
         native = run_replay(prop, replay, repo_root)
         replay["native"] = native
